@@ -24,7 +24,16 @@ def goenv():
 
 
 def registry():
-    return json.load(open(os.path.join(VERIF, "checks.json")))
+    """checks.d/<ID>.json = the spec of one check; not_applicable.json = {id: reason}."""
+    reg = {"checks": {}, "not_applicable": {}}
+    d = os.path.join(VERIF, "checks.d")
+    for f in sorted(os.listdir(d)):
+        if f.endswith(".json"):
+            reg["checks"][f[:-5]] = json.load(open(os.path.join(d, f)))
+    na = os.path.join(VERIF, "not_applicable.json")
+    if os.path.exists(na):
+        reg["not_applicable"] = json.load(open(na))
+    return reg
 
 
 def gen_gomod(outdir=None):
